@@ -1,3 +1,4 @@
+import Std.Data.HashMap
 /- Line protocol shared by all model drivers: one op per input line, one canonical line out. -/
 namespace WindVerif.Drv
 
@@ -47,6 +48,33 @@ partial def toHex (n : Nat) : String :=
 
 def encodeStr (l : List Char) : String :=
   "x" ++ joinWith "." (l.map (fun c => toHex c.toNat))
+
+/-- breadth-first exploration of the reachable states of an interleaving model (used by the harness to drive the real
+code through *every reachable transition* of a small configuration): states are identified by `key`, at most `limit` states
+are expanded; result: number of states, whether the exploration is complete, and the edges `src:thread:dst` -/
+partial def exploreGraph {σ τ : Type} (step : σ → τ → Option σ) (tids : σ → List τ) (key : σ → String) (tname : τ → String)
+    (s0 : σ) (limit : Nat) : String := Id.run do
+  let mut states : Array σ := #[s0]
+  let mut index : Std.HashMap String Nat := (∅ : Std.HashMap String Nat).insert (key s0) 0
+  let mut edges : Array String := #[]
+  let mut next := 0
+  while next < states.size && next < limit do
+    let s := states.getD next s0
+    for t in tids s do
+      match step s t with
+      | none => pure ()
+      | some s' =>
+        let k := key s'
+        match index.get? k with
+        | some j => edges := edges.push s!"{next}:{tname t}:{j}"
+        | none =>
+          let j := states.size
+          states := states.push s'
+          index := index.insert k j
+          edges := edges.push s!"{next}:{tname t}:{j}"
+    next := next + 1
+  let complete := if next == states.size then 1 else 0
+  return s!"graph states={states.size} expanded={next} complete={complete} edges=" ++ joinWith "," edges.toList
 
 partial def loop (m : Machine) (h : IO.FS.Stream) (out : IO.FS.Stream) (s : m.σ) : IO Unit := do
   let line ← h.getLine
